@@ -17,6 +17,8 @@ type readResult struct {
 	Skipped string
 	Pos     mon.PosKey
 	Img     *ref.Image
+	DBLen   int
+	WALLen  int
 }
 
 func lockRetry(f *drv.File, owner, start, end uint64, excl bool, tries int) error {
@@ -35,11 +37,18 @@ func lockRetry(f *drv.File, owner, start, end uint64, excl bool, tries int) erro
 // shared, samples <name>-pos, reads size and every page through the simulated
 // page cache, samples -pos again, and releases the locks.
 func mountRead(c *core.Case, n *drv.Node, name string, owner uint64) (res readResult, err error) {
+	p0 := mon.PosOf(n, name)
 	f, err := n.Open(name)
 	if err != nil {
 		if drv.Errno(err) == syscall.ENOENT {
+			// no lock can be taken on an absent file: the two observations
+			// (lookup, position) are only a pair if the position did not move
+			if p := mon.PosOf(n, name); p != p0 {
+				res.Skipped = "position moved while the absent file was looked up"
+				return res, nil
+			}
 			res.Absent = true
-			res.Pos = mon.PosOf(n, name)
+			res.Pos = p0
 			return res, nil
 		}
 		return res, err
@@ -92,6 +101,7 @@ func mountRead(c *core.Case, n *drv.Node, name string, owner uint64) (res readRe
 	}
 	res.Pos = p2
 	res.Img = ref.LogicalImage(dbb, wal)
+	res.DBLen, res.WALLen = len(dbb), len(wal)
 	return res, nil
 }
 
@@ -125,7 +135,7 @@ func judgeReplicaRead(c *core.Case, led *ledger, nodeName, name string, r readRe
 		got = r.Img
 	}
 	if d := got.Diff(want); d != "" {
-		c.Violate(c.Prop+"/replica-image-mismatch", fmt.Sprintf("%s at position %s of %s: bytes read through the mount differ from the primary's image at that position: %s (%s)", nodeName, r.Pos, name, d, ctx), detail)
+		c.Violate(c.Prop+"/replica-image-mismatch", fmt.Sprintf("%s at position %s of %s: bytes read through the mount differ from the primary's image at that position: %s (%s; absent=%v db=%d bytes wal=%d bytes)", nodeName, r.Pos, name, d, ctx, r.Absent, r.DBLen, r.WALLen), detail)
 		return
 	}
 	c.Count("reads_matched", 1)
